@@ -7,7 +7,7 @@
    (one step = one Read+limiter wait, one Write, or the deferred closeBridge).
    External behaviour assumed (hypotheses written into the model, see Model/Pipe.v): x/time/rate's WaitN fails iff
    n > burst or the context is cancelled and otherwise only delays; a Write returns 0 <= n <= len. *)
-From TX Require Import Model.Pipe Proofs.Pipe Proofs.PipeTop Proofs.PipeBridge Proofs.PipeLife Proofs.SideC02 Gen.C02.
+From TX Require Import Model.Pipe Model.PipeClose Proofs.Pipe Proofs.PipeTop Proofs.PipeBridge Proofs.PipeLife Proofs.PipeClose Proofs.SideC02 Gen.C02.
 
 (* ---------------- one direction in isolation: Bridge.CopyWithControl ---------------- *)
 
@@ -133,6 +133,53 @@ Definition C02_full_statement : Prop :=
     let s := bridge_run current_variant BatchUpdateThreshold lim rs0 ws0 rs1 ws1 sched in
     (exists t x, In t (snd s) /\ (b_pc t = BFinish x \/ b_pc t = BDone x)) ->     (* one end closed or failed ... *)
     (forall t, In t (snd s) -> exists x, b_pc t = BDone x) /\ wall sched <= bound.  (* ... the other observes it in time *)
+
+(* ---------------- the order of actions inside Bridge.Close (Model/PipeClose.v) ---------------- *)
+
+(* closure of both ends does not depend on the completion — or even the start — of any clean handler: with the code's
+   order (connections first, ManagerBase.Close() last) two steps of the thread that runs Close make both ends observe
+   closure, for EVERY schedule of that thread with the stats backend (whose answer to the final traffic report may come
+   arbitrarily late or never) and for every patience of the cleanup *)
+Theorem C02_closure_independent_of_clean_handlers :
+  forall (patience : option nat) (sched : list nat),
+  2 <= count_occ Nat.eq_dec sched 0 ->
+  x_src_closed (fst (close_run ConnsFirst patience sched)) = true /\
+  x_tgt_closed (fst (close_run ConnsFirst patience sched)) = true.
+Proof. exact closure_independent_of_handlers. Qed.
+Print Assumptions C02_closure_independent_of_clean_handlers.
+
+(* Close returns (so Start returns and runBridgeLifecycle removes the tunnel: C02_registry_forgets) after k+4 steps of
+   its caller even if the backend never answers — for the cleanup that bounds its wait for the report
+   (fixes/C02-cleanup-report-bounded.diff; k = the number of polls its 5 s allow) *)
+Theorem C02_close_returns_with_bounded_cleanup :
+  forall (k : nat) (sched : list nat),
+  k + 4 <= count_occ Nat.eq_dec sched 0 ->
+  closer_pc (close_run ConnsFirst (Some k) sched) = Some CDone.
+Proof. exact close_returns_with_bounded_cleanup. Qed.
+Print Assumptions C02_close_returns_with_bounded_cleanup.
+
+(* refuted: with ManagerBase.Close() moved to the front of Close, a silent backend keeps BOTH ends open however long the
+   closing thread runs *)
+Theorem C02_handlers_first_never_closes_refuted :
+  forall n, x_src_closed (fst (close_run HandlersFirst None (repeat 0 n))) = false /\
+            x_tgt_closed (fst (close_run HandlersFirst None (repeat 0 n))) = false.
+Proof. exact handlers_first_never_closes_refuted. Qed.
+Print Assumptions C02_handlers_first_never_closes_refuted.
+
+(* refuted: with the unbounded cleanup a silent backend keeps Close from ever returning (the tunnel stays in the map
+   although both ends are closed) *)
+Theorem C02_unbounded_cleanup_never_returns_refuted :
+  forall n, closer_pc (close_run ConnsFirst None (repeat 0 n)) <> Some CDone.
+Proof. exact unbounded_cleanup_never_returns_refuted. Qed.
+Print Assumptions C02_unbounded_cleanup_never_returns_refuted.
+
+(* non-vacuity: the backend answers in the middle of the closer's wait; the report completes and Close returns *)
+Theorem C02_close_order_run_exists :
+  let s := close_run ConnsFirst (Some 3) [0; 0; 0; 0; 0; 1; 0] in
+  fst s = {| x_src_closed := true; x_tgt_closed := true; x_cancelled := true; x_released := true; x_reported := true |}
+  /\ closer_pc s = Some CDone.
+Proof. exact close_nonvacuous. Qed.
+Print Assumptions C02_close_order_run_exists.
 
 (* ---------------- (4) the server forgets the tunnel ---------------- *)
 
